@@ -3,6 +3,12 @@
 // and a map[string][]byte receive the same operation sequence; after every operation Get is compared for the
 // touched key and several known/unknown keys, after every Commit the full enumeration of
 // GetAllLeavesOnChannel(root) is compared with the model as a multiset (each live pair once, original key bytes).
+// Histories also contain the life cycle of the trie instances over one storage: short-lived views recreated from
+// the live trie are enumerated and Close()d, abandoned parents are Close()d after a Recreate, and the live trie
+// must keep enumerating completely. In a third of the cases the storage is decorated (observe.go): a second trie
+// instance over the same storage enumerates the root being committed after every node write of Commit, and the
+// last commit of the case may be cut short by one failing Put; an enumeration of a root must either fail (root
+// not there) or deliver exactly the pairs of that root - never a silently truncated set.
 package main
 
 import (
@@ -43,17 +49,32 @@ func main() {
 		"Update / Update-with-empty-value / Delete / Get / Commit(+full leaf enumeration) / Commit+Recreate-and-continue. " +
 		"A case is non-trivial when at least one structural event other than 'first leaf' / 'overwrite' happened; its shape signature is " +
 		"the memory level plus the set of structural events, each event being the op kind and the node-count delta " +
-		"(branches, extensions, leaves) of the canonical trie of the live key set, plus whether it happened on a trie that was committed/recreated (collapsed nodes must be resolved).")
+		"(branches, extensions, leaves) of the canonical trie of the live key set, plus whether it happened on a trie that was committed/recreated (collapsed nodes must be resolved). " +
+		"Instance life cycle (second PRNG stream): after 1 in 4 commits a view is recreated from the live trie, enumerated, closed, and the live trie enumerated again; " +
+		"after half of the recreate-and-continue steps the abandoned parent instances are closed. 1 in 3 cases runs over a decorated storage: a second trie instance " +
+		"enumerates the root being committed after every node write (first 40) of every Commit, and half of them end with 1-6 more writes and a Commit in which Put #1..10 fails once.")
 	r.Assume("memorydb and the gogo-proto marshalizer / blake2b hasher are trusted",
 		"structural events are computed from the live key set (canonical trie), not read from the trie under test",
-		"DB errors are not injected; keys are at most 35 bytes")
+		"keys are at most 35 bytes; the only injected DB error is one failing Put in the LAST commit of a decorated case, after which the committing instance is not used again",
+		"an enumeration through the second instance during / after a failed commit is judged only when it is accepted (no error): it must then equal the model of that root")
 	r.MinShapes(50)
 
 	nCases := r.N(2000, 60000)
 	r.Parallel(nCases, func(c *vk.Case) {
 		rng := c.Rng
 		level := triegen.Levels[rng.Intn(len(triegen.Levels))]
-		env, err := triegen.NewEnv(level)
+		// decisions of the instance-life-cycle / storage-decorator dimensions come from a second stream so that the
+		// operation sequences of the first stream stay what they were
+		aux := r.Rng(c.Idx, 1)
+		var hook *hookDB
+		var wrap func(data.DBWriteCacher) data.DBWriteCacher
+		if aux.Chance(1, 3) {
+			wrap = func(inner data.DBWriteCacher) data.DBWriteCacher {
+				hook = &hookDB{DBWriteCacher: inner}
+				return hook
+			}
+		}
+		env, err := triegen.NewEnvWrapped(level, wrap)
 		if err != nil {
 			r.Inconclusive("cannot build trie: " + err.Error())
 			return
@@ -109,8 +130,58 @@ func main() {
 			sort.Slice(ks, func(i, j int) bool { return bytes.Compare(ks[i], ks[j]) < 0 })
 			return ks[rng.Intn(len(ks))]
 		}
+		var reader data.Trie // second instance over the same storage (decorated cases only)
+		if hook != nil {
+			reader, err = env.NewTrie(triegen.Levels[aux.Intn(len(triegen.Levels))])
+			if err != nil {
+				r.Inconclusive("cannot build second trie: " + err.Error())
+				return
+			}
+			r.Count("cases_with_decorated_storage", 1)
+		}
+		// observeRoot: what a reader on another trie instance sees for root at this moment
+		observeRoot := func(root []byte, when string, keyPrefix string) bool {
+			leaves, lerr := triegen.Leaves(reader, cp(root))
+			r.Eval(1)
+			if lerr != nil {
+				r.Count("second_instance_enumerations_"+when+":root-not-visible", 1)
+				return true
+			}
+			r.Count("second_instance_enumerations_"+when+":root-visible", 1)
+			if class, text := triegen.DiffLeaves(leaves, model); class != "" {
+				fail(keyPrefix+class, fmt.Sprintf("second trie instance, %s, root %x accepted but: %s", when, root, text))
+				return false
+			}
+			return true
+		}
 		commitAndEnumerate := func() bool {
-			if cerr := tr.Commit(); cerr != nil {
+			if hook != nil {
+				// the root hash is known before the commit (block headers carry it); a second instance enumerates it after
+				// every node write of this commit
+				pre, rerr := tr.RootHash()
+				if rerr != nil {
+					fail("op-error:RootHash", fmt.Sprintf("RootHash error: %v", rerr))
+					return false
+				}
+				pre = cp(pre)
+				obsOK := true
+				hook.n = 0
+				hook.afterPut = func(n int) {
+					if obsOK && n <= 40 {
+						obsOK = observeRoot(pre, "between two node writes of Commit", "partial-root-visible-during-commit:")
+					}
+				}
+				cerr := tr.Commit()
+				hook.afterPut = nil
+				r.Count("node_writes_in_observed_commits", hook.n)
+				if !obsOK {
+					return false
+				}
+				if cerr != nil {
+					fail("op-error:Commit", fmt.Sprintf("Commit error: %v", cerr))
+					return false
+				}
+			} else if cerr := tr.Commit(); cerr != nil {
 				fail("op-error:Commit", fmt.Sprintf("Commit error: %v", cerr))
 				return false
 			}
@@ -135,6 +206,33 @@ func main() {
 			}
 			collapsedSince = true
 			committedOnce = true
+			if aux.Chance(1, 4) {
+				// a short-lived read-only view of the committed root, recreated from the live trie, enumerated and closed;
+				// the live trie must still enumerate completely afterwards
+				hist = append(hist, opRec{Op: "view=Recreate(root); enumerate; view.Close(); enumerate through the live trie"})
+				view, verr := tr.Recreate(cp(root))
+				if verr != nil || view == nil || view.IsInterfaceNil() {
+					fail("op-error:Recreate", fmt.Sprintf("Recreate(%x) error: %v", root, verr))
+					return false
+				}
+				for i, t := range []data.Trie{view, tr} {
+					if i == 1 {
+						_ = view.Close()
+						r.Count("op_close_recreated_view", 1)
+					}
+					lv, e := triegen.Leaves(t, cp(root))
+					r.Eval(1)
+					r.Count("leaf_enumerations", 1)
+					if e != nil {
+						fail("op-error:GetAllLeavesOnChannel", fmt.Sprintf("GetAllLeavesOnChannel(%x) error: %v", root, e))
+						return false
+					}
+					if class, text := triegen.DiffLeaves(lv, model); class != "" {
+						fail(class, fmt.Sprintf("root %x, %s: %s", root, []string{"through a recreated view", "through the live trie after a recreated view was closed"}[i], text))
+						return false
+					}
+				}
+			}
 			return true
 		}
 
@@ -240,8 +338,18 @@ func main() {
 					ok = false
 					break
 				}
+				old := tr
 				tr = nt
 				r.Count("op_recreate", 1)
+				if aux.Bool() {
+					// the instances left behind are closed; the recreated trie lives on
+					hist[len(hist)-1].Op = "commit+recreate+close-parent"
+					_ = old.Close()
+					if base != old {
+						_ = base.Close()
+					}
+					r.Count("op_close_abandoned_parent", 1)
+				}
 			}
 			if !ok {
 				break
@@ -273,6 +381,50 @@ func main() {
 			ok = commitAndEnumerate()
 		}
 		_ = committedOnce
+		// epilogue of a decorated case: a few more writes, then a commit that one failing Put may cut short; the root
+		// of that commit, enumerated through the second instance, is either not there or complete
+		if ok && hook != nil && aux.Bool() {
+			nExtra := aux.Range(1, 6)
+			for i := 0; i < nExtra && ok; i++ {
+				k := pool[aux.Intn(len(pool))]
+				if aux.Chance(1, 3) && len(model) > 0 {
+					hist = append(hist, opRec{"delete", vk.Hex(k), ""})
+					if derr := tr.Delete(cp(k)); derr != nil {
+						fail("op-error:Delete", fmt.Sprintf("Delete(%x) error: %v", k, derr))
+						ok = false
+					}
+					delete(model, string(k))
+				} else {
+					v := triegen.Value(aux)
+					hist = append(hist, opRec{"update", vk.Hex(k), vk.Hex(v)})
+					if uerr := tr.Update(cp(k), cp(v)); uerr != nil {
+						fail("op-error:Update", fmt.Sprintf("Update(%x,%x) error: %v", k, v, uerr))
+						ok = false
+					}
+					model[string(k)] = cp(v)
+				}
+			}
+			if ok {
+				pre, _ := tr.RootHash()
+				pre = cp(pre)
+				hook.n = 0
+				hook.failAt = 1 + aux.Intn(10)
+				hist = append(hist, opRec{Op: "commit with a failing storage Put", Value: fmt.Sprintf("put #%d", hook.failAt)})
+				cerr := tr.Commit()
+				hook.failAt = 0
+				switch {
+				case cerr == nil:
+					r.Count("epilogue_commits_not_reaching_the_fault", 1)
+					ok = commitAndEnumerate()
+				case hook.faults == 0:
+					fail("op-error:Commit", fmt.Sprintf("Commit error: %v", cerr))
+					ok = false
+				default:
+					r.Count("epilogue_commits_cut_short_by_injected_put_fault", 1)
+					ok = observeRoot(pre, "after a Commit that failed on an injected storage write fault", "partial-root-visible-after-failed-commit:")
+				}
+			}
+		}
 
 		// shape signature
 		var evs []string
